@@ -202,9 +202,10 @@ def run(ctx):
         LOG.sample({'rows': [5, 8, 2, 4], 'order': [2, 0, 3, 1],
                     'meaning': 'rows[i] = successor bit mask of node i; '
                                'nodes inserted in `order`'})
-    nrand = 4000 if ctx.quick else 200000
+    nrand = 24000 if ctx.quick else 400000
     for k in range(nrand):
-        rows = gen.random_digraph(r, 12)
+        rows = gen.random_digraph(r, 12 if k % 3 == 0 else 8,
+                                  nmin=1 if k % 3 == 0 else 5)
         order = list(range(len(rows)))
         r.shuffle(order)
         nmr = r.choice(namers + ['mixed'])
